@@ -38,6 +38,6 @@ mkdir -p $S/sim && cp $VERIF/sim/*.go $S/sim/ && cp $REPO/go.sum $S/sim/go.sum
 mkdir -p $CACHE/$treehash
 (cd $S/sim && go1.26.8 test -tags verif -trimpath -c -o $BIN . ) >&2 || { rm -rf $CACHE/$treehash; fail "simulator does not build against this tree"; }
 cp $S/instrument.log $CACHE/$treehash/instrument.log
-# keep the two newest builds
-ls -1dt $CACHE/*/ 2>/dev/null | grep -v "/bin/" | tail -n +4 | xargs -r rm -rf
+# keep the seven newest builds
+ls -1dt $CACHE/*/ 2>/dev/null | grep -v "/bin/" | tail -n +8 | xargs -r rm -rf
 echo $BIN
